@@ -181,7 +181,20 @@ class Mod:
         t.append("Y%d" % len(am))                       # (amend, rc, target import): its compilation fails
         for x in am:
             t += [x[2], str(x[1])]
+        # submodule names (yang-library `submodule` list), top-level data nodes of the compiled module, and per augment / deviation
+        # statement the (import, top-level node) it descends into
+        t.append("S%d" % len(self.subs)); t += [s.name for s in self.subs]
+        nodes = self.top_nodes()
+        t.append("T%d" % len(nodes)); t += nodes
+        t.append("Q%d" % len(aug))
+        for x in aug: t += [x, "c"]
+        t.append("D%d" % len(dev))
+        for x in dev: t += [x, "c"]
         return " ".join(t)
+
+    def top_nodes(self):
+        """names of the top-level data nodes in the order of the compiled module: main module, then submodules"""
+        return (["c"] if self.data else []) + ["cs_" + s.name for s in self.subs if s.data]
 
 
 def feats_tok(f):
@@ -288,7 +301,9 @@ class Snap:
             # name@rev : I<b> : L<x> : feats : c<class>.<fnv>
             cls = f[4][1:]
             self.mods.append({"key": f[0], "impl": f[1] == "I1", "latest": int(f[2][1:], 16), "feats": f[3],
-                              "cls": cls.split(".")[0], "fnv": cls.split(".")[1] if "." in cls else cls})
+                              "cls": cls.split(".")[0], "fnv": cls.split(".")[1] if "." in cls else cls,
+                              "augby": f[5][1:] if len(f) > 5 else "-", "devby": f[6][1:] if len(f) > 6 else "-",
+                              "nodes": f[7][1:] if len(f) > 7 else "-"})
         self.hash = p[2][2:]
         self.cc = int(p[3][3:])
         self.data = p[4][2:]
@@ -309,7 +324,7 @@ def strip_x(tok):
 
 def strip_fnv(tok):
     """model replies carry no text hash: drop `.xxxxxxxx` after the class index"""
-    if tok.startswith("D"):
+    if tok.startswith("D") or tok.startswith("X"):
         return tok
     out = []
     p = tok.split("|")
